@@ -243,7 +243,7 @@ theorem extract_eq_map_range' {α : Type} (L : List α) (d : α) (s e : Nat) (he
     L.extract s e = (List.range' s (e - s)).map (fun i => L[i]?.getD d) := by
   apply List.ext_getElem?
   intro k
-  simp only [List.extract_eq_take_drop, List.getElem?_take, List.getElem?_drop, List.getElem?_map, List.getElem?_range']
+  simp only [List.extract_eq_take_drop, List.getElem?_take, List.getElem?_drop, List.getElem?_map]
   by_cases hk : k < e - s
   · have : s + k < L.length := by omega
     simp [hk, List.getElem?_eq_getElem this]
